@@ -30,7 +30,9 @@ CHECKS['C02'] = (
     'the checker the driver evaluates on the real input/output pairs is proved sound. The tie to the code is exact shell-list equality model = '
     'implementation per element for all operations, the get_basis flag subsets (interpreted from the regenerated option-block list) and two-step '
     'sequences. The whole operations (core step, pruning pass, duplicate-shell removal) and sort_shell(s) are proved for every shell list whose columns are not the zero function (SemWF). '
-    'Partial: shape promises and sort idempotence are checked on the explored inputs; optimize_general and the float <r^2> keys are not in the theorem.',
+    'Shape promises proved for every input: uncontractGeneral_shape (no general contraction left in a single-momentum shell, whole operation), uncontractSpdf_shape (no fused member above max_am, every shell list, every max_am), '
+    'makeGeneral_shape (one shell per momentum, ascending, whole operation), makeGeneral_keeps_fused, sortShell_exponents_decreasing, sortShells_momentum_increasing, sortShell_idempotent (keys moving with their contractions). '
+    'Partial: optimize_general is in C07; the float <r^2> keys are abstract (any key list); idempotence of the list-level sort_shells is checked on the explored inputs.',
     BASE_NOTE + 'Faithful hypothesis (float equality = decimal equality on the input numbers; measured per run). sort_basis float keys (<r^2>) are '
     'taken from the implementation and abstracted to ranks.', '6/C02')
 
@@ -52,7 +54,7 @@ CHECKS['C08'] = (
     'the library validator: 2^6 option combinations x augmentation on store samples (exhaustive over the store in the thorough tier) and generated dictionaries. '
     'Whole-rule theorems: pruneShell_output_valid (every validator rule holds for what prune_shell returns, given a semantically well-formed, tagged, positive input; '
     '"no duplicate contraction" is the one hypothesis), pruneShell(s)_identity_on_valid (pruning valid data changes nothing), uncontractGeneral_valid and uncontractSegmented_valid (validateElement = none for '
-    'everything uncontract_general / uncontract_segmented + prune returns on a valid element). Partial: the same closure for make_general / uncontract_spdf / optimize_general is not proved (duplicate contractions across merged shells are the known finding F10b).',
+    'everything uncontract_general / uncontract_segmented + prune returns on a valid element). Closure: final_prune_establishes_validity (prune_basis turns every prepared shell list - non-zero rectangular columns, right tag, positive exponents - into a valid element), makeGeneral_skip_valid, makeGeneral_full_valid, uncontractSpdf_prune_valid (valid in, valid out, with "no duplicate contraction" as the one hypothesis: it fails exactly when a contracted function occurs twice, the known finding F10b). Partial: optimize_general and the augmentations are not in the closure; compositions of several options are covered by the sweep only.',
     BASE_NOTE + 'jsonschema package for the generic schema part.', '6/C08')
 
 CHECKS['C01'] = (
@@ -140,8 +142,8 @@ CHECKS['C04'] = (
     'Proof (on the model): rowLine_tokens / writeMatrix_row_tokens (no cell dropped, glued or changed), convExp_only_marker, gate_rejects, gateless_formats, '
     'restricted_gates, pipelines_preserve (each of the 29 extracted normalisation pipelines uses only operations proved set-/span-preserving in C02/C07), '
     'optimize_only_veloxchem. Tie: write_matrix model = printing.write_matrix on sampled shell/ECP matrices, gate model = real gate on all 29x64 cases. '
-    'One printing loop is modelled whole, at token level: NWChem (nwchem_writer_covers_shells: for every primitive a row with its exponent and every coefficient; '
-    'nwchem_writer_covers_ecp: the nelec line and every ECP term), its token lines compared with writers/nwchem.py line for line (C03 harness). The other 28 printing loops are not '
+    'Three printing loops are modelled at token level: NWChem (nwchem_writer_covers_shells: for every primitive a row with its exponent and every coefficient; '
+    'nwchem_writer_covers_ecp: the nelec line and every ECP term), Gaussian94 (g94_writer_covers_shells, g94_writer_covers_ecp) and the Turbomole electron section (turbomole_writer_covers_shells), their token lines compared with the real writers line for line (C03 harness). The other printing loops are not '
     'modelled one by one: their output is checked token by token against the exact decimal values of the basis on every explored (basis, format) — partial, stated as such.',
     BASE_NOTE + 'the tokeniser/coverage oracle of the harness; rounding allowed for acesii and crystal at the printed width.', '6/C04')
 
@@ -170,7 +172,7 @@ CHECKS['C11'] = (
     'Proof (on the model): index_versions_are_table_files (the builder lists exactly the table files of a basis, each with its path and the elements of its composition — by induction over the fold of the model), maxStr_is_max, mem_sortDict, filter_family_role, filter_elements, filter_substr, filter_and. Tie: model index = index written by '
     'create_metadata_file (ordered JSON) on generated directories incl. aliases and planted defects; model filter = real filter on the shipped index. On the '
     'real data: shipped METADATA.json = its regeneration (all entries except the basis sets emptied in this sandbox), every entry against get_basis / the table '
-    'files present / aliases / auxiliaries / lookup_basis_by_role, enumerations. Partial: index_spec as one theorem about createMetadata is not proved; its '
+    'files present / aliases / auxiliaries / lookup_basis_by_role, enumerations. Aliases: alias_keys, alias_own_names, alias_records_agree, alias_common_fields (one record per listed name, each with its own display name and the other names, all other fields - description, latest version, family, role, function types, auxiliaries, version table - shared). Partial: index_spec as one theorem about createMetadata is not proved; its '
     'ingredients are, and C01 covers the composition it relies on.',
     BASE_NOTE + 'string order of versions.', '6/C11')
 
@@ -195,8 +197,7 @@ CHECKS['C17'] = (
     'commit_writes_planned / add_writes_planned (after a successful call the planned element, table and — if new — metadata files are there with the planned content). '
     'Tie: directory after the model step = directory after the real step (file set and JSON content, index included) for every add_from_components step of '
     'the sequences. On the real directories after every step: earlier files byte-identical, index = its regeneration, retrieval and default version in a '
-    'forked fresh process, reference forms, invalid input leaves the directory byte-for-byte unchanged. Partial: add_basis_from_dict / add_basis (reference '
-    'normalisation, readers) are validated by the sequences, not modelled.',
+    'forked fresh process, reference forms, invalid input leaves the directory byte-for-byte unchanged. add_basis_from_dict is modelled too (description / data source / reference lists attached for all four forms of refs, validation verdict as a parameter, existence check, component file written, then add_from_components): addDict_monotone, addDict_invalid_noop, addDict_bad_refs_noop, addDict_refuses_existing_component, addDict_component_stored, attachRefs_keeps_data (only the reference lists change), setRefs_get; its traces are compared with the real directories like those of add_from_components. Partial: add_basis (the format readers in front of it) is validated by the sequences, not modelled.',
     BASE_NOTE + 'file system as a map; today\'s date passed in.', '6/C17')
 
 CHECKS['C15'] = (
